@@ -80,6 +80,11 @@ def _jobs_item_kinds(oracles, family, tier):
         n = 2 if s.endswith("ACC") else 3
         k = 1 if s.endswith("ACC") else 0
         jobs.append(m1(s, family, n, k, oracles, 6 if q else 30, R2=2, USE=True, TR=False, S=0, ITEMS="falsy", name=f"M1/{s}/{family}/falsy-items"))
+    # distinct objects that carry the same id (a part number, not a serial number)
+    for s in ("BUF_LIFO", "FLEET", "SBELT_ACC", "CBELT_ACC", "CBELT_NOACC"):
+        n = 2 if "BELT" in s else 3
+        k = 1 if "BELT" in s else 0
+        jobs.append(m1(s, family, n, k, oracles, 6 if q else 30, R2=2, USE=True, TR=False, S=0, ITEMS="same-id", name=f"M1/{s}/{family}/same-id-items"))
     return jobs
 
 
@@ -289,6 +294,7 @@ def fan_cfgs(tier):
     C["line-lifo"] = dict(n_src=1, n_out=1, n_items=4, w=1, in_cap=3, sym=("pd",), conv_kw=dict(mode="LIFO"))
     C["two-machines"] = dict(n_src=1, n_out=1, n_items=3, w=1, second_machine=True, out_delay=0)
     C["two-machines-fanout"] = dict(n_src=1, n_out=2, n_items=3, w=2, second_machine=True, out_delay=0, out_cap=1, sym=("pd",))
+    C["line-fleet-out-3items"] = dict(n_src=1, n_out=1, n_items=3, w=1, out_kind="fleet", out_cap=2, sym=("iat",), conv_kw=dict(fdelay=1, transit=0.5), until=16)
     C["line-fleet-out"] = dict(n_src=1, n_out=1, n_items=2, w=1, out_kind="fleet", out_cap=2, sym=("pd",), conv_kw=dict(fdelay=1, transit=0.5), until=14)
     C["line-cconv-in"] = dict(n_src=1, n_out=1, n_items=3, w=1, in_kind="cconv", in_cap=3, sym=("iat", "pd"), out_delay=0)
     C["line-cconv-out"] = dict(n_src=1, n_out=1, n_items=3, w=2, out_kind="cconv", out_cap=3, sym=("iat", "pd"))
